@@ -140,7 +140,12 @@ func RunProgram(p *scriggo.Program, o Opts) (res Result) {
 	}()
 	ro := &scriggo.RunOptions{Context: o.Ctx}
 	if !o.NoPrint {
-		ro.Print = func(v any) { printed.WriteString(FormatPrint(v)) }
+		ro.Print = func(v any) {
+			// a runaway program must not exhaust the memory of the checker: text beyond 16 MiB is dropped
+			if printed.Len() < 16<<20 {
+				printed.WriteString(FormatPrint(v))
+			}
+		}
 	}
 	res.RunErr = p.Run(ro)
 	return res
